@@ -278,16 +278,27 @@ def run_instance(u, nm, inst, tier, keep=False):
             res['status'] = 'focus'; return res
         cmd = ['cbmc', b, '--json-ui'] + flags
         res['cmds'].append(' '.join(cmd))
-        outf = os.path.join(work, 'cbmc.json')
-        with open(outf, 'wb') as fo:
-            rc, _, err, dt = sh(cmd, cwd=work, timeout=to, mem_gb=float(u.get('mem_gb', 12)), stdout=fo)
-        res['solver_s'] = round(dt, 1)
-        if rc == 'timeout':
-            res['status'] = 'timeout'; res['notes'].append(f'cbmc timeout after {to}s'); return res
-        try:
-            msgs = json.load(open(outf))
-        except Exception as e:
-            res['status'] = 'error'; res['notes'].append(f'cbmc output unreadable rc={rc}: {err[-500:]}'); return res
+        split = int(inst.get('split', u.get('split', 0)) or 0)
+        if split:
+            # per-group mode: the SAME instrumented program, its obligations partitioned by kind into groups that are each decided by
+            # one cbmc query (--property ...; unselected obligations are not checked in that query, nothing is assumed); the union of
+            # the groups is the full obligation list (checked below) -- for functions whose joint query does not finish.
+            msgs, note, dt = run_split(b, flags, work, to, float(u.get('mem_gb', 12)), split, int(u.get('split_jobs', 4)))
+            res['solver_s'] = round(dt, 1)
+            if msgs is None:
+                res['status'] = 'timeout' if 'timeout' in note else 'error'; res['notes'].append(note); return res
+            res['notes'].append(note); err = ''
+        else:
+            outf = os.path.join(work, 'cbmc.json')
+            with open(outf, 'wb') as fo:
+                rc, _, err, dt = sh(cmd, cwd=work, timeout=to, mem_gb=float(u.get('mem_gb', 12)), stdout=fo)
+            res['solver_s'] = round(dt, 1)
+            if rc == 'timeout':
+                res['status'] = 'timeout'; res['notes'].append(f'cbmc timeout after {to}s'); return res
+            try:
+                msgs = json.load(open(outf))
+            except Exception as e:
+                res['status'] = 'error'; res['notes'].append(f'cbmc output unreadable rc={rc}: {err[-500:]}'); return res
         results = None; ignoring = False; errors = []
         for m in msgs:
             if 'result' in m: results = m['result']
@@ -370,6 +381,57 @@ def run_instance(u, nm, inst, tier, keep=False):
         res['wall_s'] = round(time.time() - t00, 1)
         if not keep:
             shutil.rmtree(work, ignore_errors=True)
+
+def run_split(b, flags, work, to, mem_gb, nmax, jobs):
+    """decide the obligations of one instrumented program group by group; returns (merged json-ui messages, note, solver seconds)."""
+    rc, out, err, _ = sh(['cbmc', b, '--show-properties', '--json-ui'] + flags, cwd=work, timeout=300)
+    try:
+        ids = [pr['name'] for m in json.loads(out) for pr in m.get('properties', [])]
+    except Exception as e:
+        return None, 'split: property list unreadable: %r' % (e,), 0.0
+    if not ids:
+        return None, 'split: no properties', 0.0
+    groups = {}
+    for i in ids:
+        parts = i.split('.')
+        kind = parts[-2] if len(parts) >= 2 else i
+        groups.setdefault((parts[0], kind), []).append(i)
+    chunks = []
+    for k in sorted(groups):
+        g = groups[k]
+        for j in range(0, len(g), nmax):
+            chunks.append(g[j:j + nmax])
+    def one(ci):
+        outf = os.path.join(work, 'cbmc_g%d.json' % ci)
+        with open(outf, 'wb') as fo:
+            rc, _, err, dt = sh(['cbmc', b, '--json-ui'] + flags + [x for i in chunks[ci] for x in ('--property', i)],
+                                cwd=work, timeout=to, mem_gb=mem_gb, stdout=fo)
+        if rc == 'timeout':
+            return ci, None, 'timeout', dt
+        try:
+            return ci, json.load(open(outf)), '', dt
+        except Exception as e:
+            return ci, None, 'unreadable rc=%s %s' % (rc, err[-200:]), dt
+    merged = []; results = []; total = 0.0; bad = []
+    with cf.ThreadPoolExecutor(max_workers=jobs) as ex:
+        for ci, msgs, why, dt in ex.map(one, range(len(chunks))):
+            total += dt
+            if msgs is None:
+                bad.append('group %d (%s..., %d obligations): %s' % (ci, chunks[ci][0], len(chunks[ci]), why)); continue
+            got = None
+            for m in msgs:
+                if 'result' in m: got = m['result']
+                else: merged.append(m)
+            if got is None:
+                bad.append('group %d gave no result' % ci); continue
+            want = set(chunks[ci])
+            results += [r for r in got if r['property'] in want]
+    if bad:
+        return None, 'split: ' + ' | '.join(bad)[:600] + (' timeout' if any('timeout' in x for x in bad) else ''), total
+    if {r['property'] for r in results} != set(ids):
+        return None, 'split: union of the groups differs from the obligation list (%d vs %d)' % (len(results), len(ids)), total
+    merged.append({'result': results})
+    return merged, 'decided in %d groups (<= %d obligations each, %d at a time)' % (len(chunks), nmax, jobs), total
 
 def load_known():
     known = []; fixed = []
